@@ -95,9 +95,37 @@ def check_roundtrip(lx: LayoutExtractor, rep, prefix='C01'):
     w_ = lx.repo.table_writers('pdu', 'SUB_ITEM_TYPES')
     rep.check(not w_, R('O6'), 'pdu:SUB_ITEM_TYPES:constant-after-import', 'pynetdicom2/pdu.py',
               'no function re-binds or mutates the sub-item dispatch table', '; '.join(w_))
+    p13, n13 = seek_target_problems(lx)
+    rep.rule(R('O13'), 'a decoder that jumps to the end of its item by the declared length consumes exactly the item (same analysis as '
+             'C02.L7): the jump target is start + header up to the length field + declared length', 1)
+    rep.check(not p13, R('O13'), 'pdu+userdataitems:seek-targets', '', '%d end-of-item jump(s), each behind exactly the declared length' % n13,
+              '; '.join(p13))
     reachable = set()
     type_of = {}
     for c in classes:
+        # a codec class that was added after the rules were confirmed: its layout is read like the others' when the extractor
+        # understands it; when not (element lists, nested length fields, seeks) the class is outside the model -- said once, as
+        # undecided -- and only its type constant (a class attribute) takes part in the dispatch rule
+        is_new = lx.repo.is_helper_class(c)
+        if is_new:
+            tconst = None
+            for an_ in ('item_type', 'pdu_type'):
+                hit_ = c.find_attr(an_)
+                if hit_ is not None:
+                    v_ = lx.repo.try_fold(hit_[1], hit_[0].module, hit_[0])
+                    if isinstance(v_, int) and not isinstance(v_, bool):
+                        tconst = v_
+            try:
+                lay_try = lx.layout(c)
+                understood = lay_try.type_const is not None and lay_try.type_const == tconst
+            except AnalysisError:
+                understood = False
+            if not understood:
+                if tconst is not None:
+                    type_of[c.name] = tconst
+                rep.undecided(R('O1'), '%s: %s was added after the codec rules were confirmed and its encoder / decoder are not in a form '
+                              'the layout extractor reads: its round trip is not decided' % (c.loc(), c.name))
+                continue
         lay = lx.layout(c)
         rep.analysed(lay.enc_f)
         rep.analysed(lay.dec_f)
@@ -334,6 +362,18 @@ def check_wire(lx: LayoutExtractor, rep, prefix='C02', only=None, rule_map=None)
     """``only``: restrict to these classes (and skip the converse-direction part); ``rule_map``: rename rule suffixes"""
     R = lambda r: '%s.%s' % (prefix, (rule_map or {}).get(r, r))
     classes = {c.name: c for c in lx.concrete_classes()}
+    if only is None:
+        for name, c in sorted(classes.items()):
+            if name not in OR.LAYOUTS and lx.repo.is_helper_class(c):
+                rep.undecided(R('L1'), '%s: %s is a codec class added after the layout table was transcribed: the standard\'s layout of '
+                              'this item is not in the oracle, what it puts on the wire is not decided' % (c.loc(), name))
+        # L7: a decoder that repositions the stream by the declared length lands behind the item
+        p7, n7 = seek_target_problems(lx)
+        rep.rule(R('L7'), 'a decoder that jumps to the end of its item (``stream.seek(end)`` with ``end`` computed from ``stream.tell()`` and '
+                 'the declared length) lands on start + header-up-to-the-length-field + declared length: the bytes of the header that '
+                 'were read after the length field are part of what the length counts', 1)
+        rep.check(not p7, R('L7'), 'pdu+userdataitems:seek-targets', '', '%d end-of-item jump(s), each behind exactly the declared length' % n7,
+                  '; '.join(p7))
     for name, spec in OR.LAYOUTS.items():
         if only is not None and name not in only:
             continue
@@ -797,3 +837,98 @@ def guard_problems(lx: LayoutExtractor, c) -> Tuple[List[str], int]:
                                         code, _CODE_MAX[code]))
                         break
     return sorted(set(probs)), n_paths
+
+
+
+def seek_target_problems(lx: LayoutExtractor) -> Tuple[List[str], int]:
+    """Straight-line position arithmetic in the decoders of all codec classes: from the entry of ``decode(cls, stream)`` every
+    ``stream.read(n)`` with a constant / struct-size n advances the position; the field unpacked from header bytes 2.. (2 bytes
+    in items, 4 in PDUs) is the declared length L, which counts what follows it.  A local bound to ``stream.tell() + E`` at
+    position q is q + E; a later ``stream.seek(local)`` must go to (offset where L's field ends) + L.
+    -> (problems, number of such jumps examined)"""
+    import struct as _st
+    probs: List[str] = []
+    n = 0
+    repo = lx.repo
+    for c in lx.classes.values():
+        f = c.methods.get('decode')
+        if f is None or len(f.params) < 2:
+            continue
+        sp = f.params[1]
+        if not any(isinstance(x, ast.Call) and isinstance(x.func, ast.Attribute) and x.func.attr == 'seek'
+                   and isinstance(x.func.value, ast.Name) and x.func.value.id == sp for x in ast.walk(f.node)):
+            continue
+        pos = 0                      # bytes read so far (None once it is no longer a constant)
+        length_name = None
+        length_end = None
+        ends: Dict[str, Tuple[Optional[int], ast.expr, int]] = {}
+
+        def const(e):
+            v = repo.try_fold(e, f.module, c)
+            return v if isinstance(v, int) and not isinstance(v, bool) else None
+        for st in f.node.body:
+            if isinstance(st, (ast.FunctionDef, ast.ClassDef)) or (isinstance(st, ast.Expr) and isinstance(st.value, ast.Constant)):
+                continue
+            if isinstance(st, (ast.For, ast.While, ast.If, ast.Try, ast.With)):
+                break
+            # bind: names = S.unpack(stream.read(N))
+            if isinstance(st, ast.Assign) and len(st.targets) == 1 and isinstance(st.targets[0], ast.Tuple) and isinstance(st.value, ast.Call) \
+                    and isinstance(st.value.func, ast.Attribute) and st.value.func.attr == 'unpack' and length_name is None and pos == 0:
+                sv = lx.struct_of(st.value.func.value, c)
+                if sv is not None:
+                    from .layout import parse_fmt
+                    try:
+                        order, fields = parse_fmt(sv.fmt)
+                    except Exception:
+                        fields = []
+                    off = 0
+                    idx = 0
+                    for ch, w in fields:
+                        if ch != 'x':
+                            if off == 2 and idx < len(st.targets[0].elts) and isinstance(st.targets[0].elts[idx], ast.Name):
+                                length_name = st.targets[0].elts[idx].id
+                                length_end = off + w
+                            idx += 1
+                        off += w
+            # a local bound to tell() + E, evaluated at the current position
+            if isinstance(st, ast.Assign) and len(st.targets) == 1 and isinstance(st.targets[0], ast.Name) \
+                    and any(isinstance(x, ast.Call) and isinstance(x.func, ast.Attribute) and x.func.attr == 'tell' for x in ast.walk(st.value)):
+                ends[st.targets[0].id] = (pos, st.value, st.lineno)
+            # advance over the reads of this statement
+            for x in ast.walk(st):
+                if isinstance(x, ast.Call) and isinstance(x.func, ast.Attribute) and x.func.attr == 'read' and isinstance(x.func.value, ast.Name) \
+                        and x.func.value.id == sp and pos is not None:
+                    k = const(x.args[0]) if x.args else None
+                    pos = pos + k if k is not None else None
+        if length_name is None:
+            continue
+        for x in ast.walk(f.node):
+            if isinstance(x, ast.Call) and isinstance(x.func, ast.Attribute) and x.func.attr == 'seek' and isinstance(x.func.value, ast.Name) \
+                    and x.func.value.id == sp and len(x.args) == 1 and isinstance(x.args[0], ast.Name) and x.args[0].id in ends:
+                q, expr, line = ends[x.args[0].id]
+                if q is None:
+                    continue
+                n += 1
+                from .arith import CannotEvaluate, eval_term
+
+                class T(ast.NodeTransformer):
+                    def visit_Call(self_, node):
+                        if isinstance(node.func, ast.Attribute) and node.func.attr == 'tell':
+                            return ast.Constant(value=q)
+                        return self_.generic_visit(node)
+                import copy as _copy
+                e2 = T().visit(_copy.deepcopy(expr))
+                vals = []
+                try:
+                    for L in (0, 10, 300):
+                        vals.append(eval_term(e2, {length_name: L}) - L)
+                except (CannotEvaluate, TypeError):
+                    continue
+                if len(set(vals)) != 1:
+                    continue
+                if vals[0] != length_end:
+                    probs.append('%s.decode line %d: %s = %s is computed after %d header byte(s) were read, so the jump goes to start + %d + %s; '
+                                 'the length field ends at offset %d and counts everything behind it: the target is %d byte(s) %s'
+                                 % (c.name, line, x.args[0].id, ast.unparse(expr), q, vals[0], length_name, length_end,
+                                    abs(vals[0] - length_end), 'too far (the next item is entered in its middle)' if vals[0] > length_end else 'short'))
+    return sorted(set(probs)), n
